@@ -54,4 +54,365 @@ theorem sqlResolveLocal_refines (rows : List DocRow) (t : Int) (allow : Bool) (d
     have := (sqlLatest_exact _ _ _ _ h).1
     by_cases ha : r.active <;> simp [rowState, ha, resolveLocal, this]
 
+/-! ### the stateful response cache (http/client/caching.go) -/
+
+/-- invariant of every reachable cache state -/
+structure RCache.Inv (c : RCache) : Prop where
+  listed : ∀ e ∈ c.list, e ∈ c.all
+  short : c.list.length ≤ 1
+  ids : ∀ e ∈ c.all, e.id < c.nextId
+  nodup : (c.all.map (·.id)).Nodup
+  acct : c.size = sumSizes c.all
+  cap : c.all = [] ∨ c.size < c.maxBytes
+
+theorem eraseEntry_sub (h : CEntry) (l : List CEntry) : ∀ e ∈ eraseEntry h l, e ∈ l := by
+  induction l with
+  | nil => simp [eraseEntry]
+  | cons x xs ih =>
+    intro e he
+    simp only [eraseEntry] at he
+    split at he
+    · exact List.mem_cons_of_mem _ he
+    · rcases List.mem_cons.mp he with h1 | h1
+      · simp [h1]
+      · exact List.mem_cons_of_mem _ (ih e h1)
+
+theorem eraseEntry_sum (h : CEntry) (l : List CEntry) (hm : h ∈ l) (nd : (l.map (·.id)).Nodup) :
+    sumSizes (eraseEntry h l) = sumSizes l - (h.size : Int) ∧ (∀ e ∈ l, e.id ≠ h.id → e ∈ eraseEntry h l) ∧
+    ((eraseEntry h l).map (·.id)).Nodup := by
+  induction l with
+  | nil => cases hm
+  | cons x xs ih =>
+    simp only [List.map_cons, List.nodup_cons] at nd
+    simp only [eraseEntry]
+    by_cases hx : x.key = h.key ∧ x.id = h.id
+    · simp only [hx, and_self, if_true]
+      have hxh : x = h := by
+        rcases List.mem_cons.mp hm with h1 | h1
+        · exact h1.symm
+        · exfalso; apply nd.1; rw [hx.2]; exact List.mem_map_of_mem h1
+      refine ⟨?_, ?_, nd.2⟩
+      · simp [sumSizes, hxh]; omega
+      · intro e he hne
+        rcases List.mem_cons.mp he with h1 | h1
+        · exfalso; apply hne; rw [h1, hxh]
+        · exact h1
+    · simp only [hx, if_false]
+      have hm' : h ∈ xs := by
+        rcases List.mem_cons.mp hm with h1 | h1
+        · exfalso; apply hx; simp [h1]
+        · exact h1
+      obtain ⟨i1, i2, i3⟩ := ih hm' nd.2
+      refine ⟨?_, ?_, ?_⟩
+      · simp only [sumSizes, List.map_cons, List.sum_cons] at *; omega
+      · intro e he hne
+        rcases List.mem_cons.mp he with h1 | h1
+        · simp [h1]
+        · exact List.mem_cons_of_mem _ (i2 e h1 hne)
+      · simp only [List.map_cons, List.nodup_cons]
+        refine ⟨?_, i3⟩
+        intro hc
+        apply nd.1
+        obtain ⟨y, hy, hyid⟩ := List.mem_map.mp hc
+        exact List.mem_map.mpr ⟨y, eraseEntry_sub h xs y hy, hyid⟩
+
+theorem id_inj (l : List CEntry) (nd : (l.map (·.id)).Nodup) (a b : CEntry) (ha : a ∈ l) (hb : b ∈ l) (h : a.id = b.id) : a = b := by
+  induction l with
+  | nil => cases ha
+  | cons x xs ih =>
+    simp only [List.map_cons, List.nodup_cons] at nd
+    rcases List.mem_cons.mp ha with h1 | h1 <;> rcases List.mem_cons.mp hb with h2 | h2
+    · rw [h1, h2]
+    · exfalso; apply nd.1; rw [← h1, h]; exact List.mem_map_of_mem h2
+    · exfalso; apply nd.1; rw [← h2, ← h]; exact List.mem_map_of_mem h1
+    · exact ih nd.2 h1 h2
+
+structure PopRel (c c' : RCache) : Prop where
+  inv : c'.Inv
+  maxEq : c'.maxBytes = c.maxBytes
+  nextEq : c'.nextId = c.nextId
+  allSub : ∀ e ∈ c'.all, e ∈ c.all
+  keep : ∀ e ∈ c.all, e ∉ c.list → e ∈ c'.all
+  listSub : ∀ e ∈ c'.list, e ∈ c.list
+  sizeLe : c'.size ≤ c.size
+
+theorem pop_nil (c : RCache) (hl : c.list = []) : c.pop = c := by
+  unfold RCache.pop; rw [hl]
+
+theorem pop_cons (c : RCache) (h : CEntry) (t : List CEntry) (hl : c.list = h :: t) :
+    c.pop = { c with all := eraseEntry h c.all, size := c.size - (h.size : Int), list := t } := by
+  unfold RCache.pop; rw [hl]
+
+theorem pop_rel (c : RCache) (hi : c.Inv) : PopRel c c.pop := by
+  cases hl : c.list with
+  | nil =>
+    rw [pop_nil c hl]
+    exact ⟨hi, rfl, rfl, fun e he => he, fun e he _ => he, fun e he => he, Int.le_refl _⟩
+  | cons h t =>
+    rw [pop_cons c h t hl]
+    have hs := hi.short
+    rw [hl] at hs
+    have ht : t = [] := by cases t with | nil => rfl | cons a b => simp at hs
+    subst ht
+    have hm : h ∈ c.all := hi.listed h (by simp [hl])
+    obtain ⟨e1, e2, e3⟩ := eraseEntry_sum h c.all hm hi.nodup
+    refine ⟨⟨?_, ?_, ?_, e3, ?_, ?_⟩, rfl, rfl, ?_, ?_, ?_, ?_⟩
+    · intro e he; cases he
+    · simp
+    · intro e he; exact hi.ids e (eraseEntry_sub h c.all e he)
+    · show c.size - (h.size : Int) = sumSizes (eraseEntry h c.all)
+      rw [e1, hi.acct]
+    · right
+      show c.size - (h.size : Int) < c.maxBytes
+      rcases hi.cap with hc | hc
+      · rw [hc] at hm; cases hm
+      · omega
+    · intro e he; exact eraseEntry_sub h c.all e he
+    · intro e he hne
+      apply e2 e he
+      intro hid
+      apply hne
+      have : e = h := id_inj c.all hi.nodup e h he hm hid
+      rw [this, hl]; simp
+    · intro e he; cases he
+    · show c.size - (h.size : Int) ≤ c.size
+      omega
+
+theorem PopRel.refl (c : RCache) (hi : c.Inv) : PopRel c c :=
+  ⟨hi, rfl, rfl, fun _ he => he, fun _ he _ => he, fun _ he => he, Int.le_refl _⟩
+
+theorem PopRel.trans {a b c : RCache} (h1 : PopRel a b) (h2 : PopRel b c) : PopRel a c :=
+  ⟨h2.inv, h2.maxEq.trans h1.maxEq, h2.nextEq.trans h1.nextEq, fun e he => h1.allSub e (h2.allSub e he),
+   fun e he hn => h2.keep e (h1.keep e he hn) (fun hl => hn (h1.listSub e hl)),
+   fun e he => h1.listSub e (h2.listSub e he), Int.le_trans h2.sizeLe h1.sizeLe⟩
+
+theorem removeExpiredN_rel (now : Int) (n : Nat) (c : RCache) (hi : c.Inv) : PopRel c (removeExpiredN now n c) := by
+  induction n generalizing c with
+  | zero => exact PopRel.refl c hi
+  | succ n ih =>
+    unfold removeExpiredN
+    split
+    · exact PopRel.refl c hi
+    · split
+      · exact PopRel.trans (pop_rel c hi) (ih c.pop (pop_rel c hi).inv)
+      · exact PopRel.refl c hi
+
+theorem makeRoomN_rel (need : Int) (n : Nat) (c c' : RCache) (hi : c.Inv) (h : makeRoomN need n c = .ok c') :
+    PopRel c c' ∧ c'.size + need < c'.maxBytes := by
+  induction n generalizing c with
+  | zero =>
+    unfold makeRoomN at h
+    split at h
+    · cases h
+    · cases h; exact ⟨PopRel.refl _ hi, by omega⟩
+  | succ n ih =>
+    unfold makeRoomN at h
+    split at h
+    · split at h
+      · cases h
+      · obtain ⟨r, hlt⟩ := ih c.pop (pop_rel c hi).inv h
+        exact ⟨PopRel.trans (pop_rel c hi) r, hlt⟩
+    · cases h; exact ⟨PopRel.refl _ hi, by omega⟩
+
+theorem linkIn_short (e : CEntry) (l : List CEntry) (h : l.length ≤ 1) : linkIn e l = [e] := by
+  cases l with
+  | nil => rfl
+  | cons x xs =>
+    cases xs with
+    | nil => simp [linkIn]
+    | cons y ys => simp at h
+
+/-- entries that are in the index but not in the expiry list are kept, unlisted, by a transition -/
+def Keeps (c c' : RCache) : Prop := ∀ e ∈ c.all, e ∉ c.list → e ∈ c'.all ∧ e ∉ c'.list
+
+theorem PopRel.keeps {c c' : RCache} (h : PopRel c c') : Keeps c c' :=
+  fun e he hn => ⟨h.keep e he hn, fun hl => hn (h.listSub e hl)⟩
+
+theorem sumSizes_append (a b : List CEntry) : sumSizes (a ++ b) = sumSizes a + sumSizes b := by
+  simp [sumSizes, List.sum_append]
+
+theorem insert_inv (c c2 : RCache) (hi : c.Inv) (key method query : Bytes) (size : Nat) (exp : Int)
+    (h : c.insert key method query size exp = .ok c2) : c2.Inv ∧ c2.maxBytes = c.maxBytes ∧ Keeps c c2 ∧
+      (∀ e ∈ c.list, e ∈ c.all → ((size : Int) ≤ c.maxBytes) → e ∈ c2.all → e ∉ c2.list) := by
+  unfold RCache.insert at h
+  simp only at h
+  split at h
+  · cases h
+    refine ⟨⟨hi.listed, hi.short, fun e he => Nat.lt_succ_of_lt (hi.ids e he), hi.nodup, hi.acct, hi.cap⟩, rfl, fun e he hn => ⟨he, hn⟩, ?_⟩
+    intro e _ _ hle; omega
+  · rename_i hsz
+    split at h
+    · rename_i c1 hmr
+      cases h
+      have hi0 : ({ c with nextId := c.nextId + 1 } : RCache).Inv :=
+        ⟨hi.listed, hi.short, fun e he => Nat.lt_succ_of_lt (hi.ids e he), hi.nodup, hi.acct, hi.cap⟩
+      obtain ⟨r, hlt⟩ := makeRoomN_rel _ _ _ _ hi0 hmr
+      have hl1 := linkIn_short { id := c.nextId, key := key, method := method, query := query, size := size, exp := exp } c1.list r.inv.short
+      have hnext : c1.nextId = c.nextId + 1 := r.nextEq
+      refine ⟨⟨?_, ?_, ?_, ?_, ?_, ?_⟩, r.maxEq, ?_, ?_⟩
+      · intro e he
+        simp only [hl1, List.mem_singleton] at he
+        simp [he]
+      · simp only [hl1]; simp
+      · intro e he
+        simp only [List.mem_append, List.mem_singleton] at he
+        rcases he with h1 | h1
+        · exact r.inv.ids e h1
+        · rw [h1, hnext]; simp
+      · simp only [List.map_append, List.map_cons, List.map_nil]
+        rw [List.nodup_append]
+        refine ⟨r.inv.nodup, by simp, ?_⟩
+        intro a ha b hb
+        simp only [List.mem_singleton] at hb
+        obtain ⟨y, hy, hyid⟩ := List.mem_map.mp ha
+        have := hi.ids y (r.allSub y hy)
+        omega
+      · show c1.size + (size : Int) = sumSizes (c1.all ++ [_])
+        rw [sumSizes_append, r.inv.acct]; simp [sumSizes]
+      · right
+        show c1.size + (size : Int) < c1.maxBytes
+        exact hlt
+      · intro e he hn
+        obtain ⟨k1, k2⟩ := r.keeps e he hn
+        refine ⟨List.mem_append_left _ k1, ?_⟩
+        simp only [hl1, List.mem_singleton]
+        intro heq
+        have := hi.ids e he
+        rw [heq] at this
+        simp at this
+      · intro e he hea _ _
+        simp only [hl1, List.mem_singleton]
+        intro heq
+        have := hi.ids e hea
+        rw [heq] at this
+        simp at this
+    · cases h
+    · cases h
+
+theorem get_rel (c : RCache) (hi : c.Inv) (now : Int) (k m q : Bytes) : PopRel c (c.get now k m q).1 := by
+  unfold RCache.get RCache.removeExpired
+  exact removeExpiredN_rel now _ c hi
+
+theorem get_hit (c : RCache) (now : Int) (k m q : Bytes) (e : CEntry) (h : (c.get now k m q).2 = some e) :
+    e.key = k ∧ e.method = m ∧ e.query = q ∧ e ∈ (c.get now k m q).1.all := by
+  unfold RCache.get at h ⊢
+  simp only at h ⊢
+  have h1 := List.find?_some h
+  have h2 := List.mem_of_find?_eq_some h
+  have h3 := List.mem_filter.mp h2
+  simp at h1 h3
+  exact ⟨h3.2, h1.1, h1.2, h3.1⟩
+
+/-- a lookup for an entry of the index that matches itself always hits (whatever the time) -/
+theorem get_finds (c : RCache) (now : Int) (e : CEntry) (he : e ∈ (c.get now e.key e.method e.query).1.all) :
+    ∃ e', (c.get now e.key e.method e.query).2 = some e' := by
+  unfold RCache.get at he ⊢
+  simp only at he ⊢
+  cases hf : List.find? (fun x => decide (x.method = e.method ∧ x.query = e.query))
+      (List.filter (fun x => decide (x.key = e.key)) (c.removeExpired now).all) with
+  | some e' => exact ⟨e', rfl⟩
+  | none =>
+    exfalso
+    have := List.find?_eq_none.mp hf e (List.mem_filter.mpr ⟨he, by simp⟩)
+    simp at this
+
+theorem rtMiss_rel (c1 : RCache) (hi : c1.Inv) (now mc : Int) (k m q : Bytes) (i : Inner) :
+    (c1.rtMiss now mc k m q i).1.Inv ∧ (c1.rtMiss now mc k m q i).1.maxBytes = c1.maxBytes ∧ Keeps c1 (c1.rtMiss now mc k m q i).1 := by
+  have base : c1.Inv ∧ c1.maxBytes = c1.maxBytes ∧ Keeps c1 c1 := ⟨hi, rfl, fun e he hn => ⟨he, hn⟩⟩
+  unfold RCache.rtMiss
+  cases i with
+  | fail => exact base
+  | resp size cacheable =>
+    simp only
+    split
+    · exact base
+    · cases cacheable with
+      | none => exact base
+      | some t =>
+        simp only
+        split
+        · rename_i c2 hins
+          obtain ⟨i2, m2, k2, _⟩ := insert_inv c1 c2 hi _ _ _ _ _ hins
+          exact ⟨i2, m2, k2⟩
+        · exact base
+
+theorem roundTrip_rel (c : RCache) (hi : c.Inv) (now mc : Int) (k m q : Bytes) (i : Inner) :
+    (c.roundTrip now mc k m q i).1.Inv ∧ (c.roundTrip now mc k m q i).1.maxBytes = c.maxBytes ∧ Keeps c (c.roundTrip now mc k m q i).1 := by
+  unfold RCache.roundTrip
+  split
+  · have hr := get_rel c hi now k m q
+    split
+    · rename_i c1 e heq
+      rw [heq] at hr
+      exact ⟨hr.inv, hr.maxEq, hr.keeps⟩
+    · rename_i c1 heq
+      rw [heq] at hr
+      obtain ⟨a, b, d⟩ := rtMiss_rel c1 hr.inv now mc k m q i
+      refine ⟨a, b.trans hr.maxEq, ?_⟩
+      intro e he hn
+      obtain ⟨x, y⟩ := hr.keeps e he hn
+      exact d e x y
+  · exact rtMiss_rel c hi now mc k m q i
+
+theorem Keeps.trans {a b c : RCache} (h1 : Keeps a b) (h2 : Keeps b c) : Keeps a c :=
+  fun e he hn => let ⟨x, y⟩ := h1 e he hn; h2 e x y
+
+theorem new_inv (m : Int) : (RCache.new m).Inv := by
+  refine ⟨?_, ?_, ?_, ?_, ?_, Or.inl rfl⟩
+  · intro e he; cases he
+  · show ([] : List CEntry).length ≤ 1; simp
+  · intro e he; cases he
+  · show (([] : List CEntry).map (·.id)).Nodup; simp
+  · show (0 : Int) = sumSizes []; simp [sumSizes]
+
+theorem step_inv (c c' : RCache) (hi : c.Inv) (o : COp) (h : c.step o = some c') :
+    c'.Inv ∧ c'.maxBytes = c.maxBytes ∧ Keeps c c' := by
+  cases o with
+  | get now k m q =>
+    simp only [RCache.step, Option.some.injEq] at h
+    subst h
+    have r := get_rel c hi now k m q
+    exact ⟨r.inv, r.maxEq, r.keeps⟩
+  | insert k m q sz t =>
+    simp only [RCache.step] at h
+    split at h
+    · rename_i c2 hins
+      cases h
+      obtain ⟨a, b, d, _⟩ := insert_inv c _ hi _ _ _ _ _ hins
+      exact ⟨a, b, d⟩
+    · cases h
+  | pop =>
+    simp only [RCache.step, Option.some.injEq] at h
+    subst h
+    have r := pop_rel c hi
+    exact ⟨r.inv, r.maxEq, r.keeps⟩
+  | roundTrip now mc k m q i =>
+    simp only [RCache.step] at h
+    have r := roundTrip_rel c hi now mc k m q i
+    split at h
+    · cases h
+    · rename_i c2 o heq
+      cases h
+      rw [heq] at r
+      exact r
+
+theorem run_inv (ops : List COp) (c c' : RCache) (hi : c.Inv) (h : c.run ops = some c') :
+    c'.Inv ∧ c'.maxBytes = c.maxBytes ∧ Keeps c c' := by
+  induction ops generalizing c with
+  | nil =>
+    simp only [RCache.run, Option.some.injEq] at h
+    subst h
+    exact ⟨hi, rfl, fun e he hn => ⟨he, hn⟩⟩
+  | cons o os ih =>
+    simp only [RCache.run] at h
+    split at h
+    · rename_i c1 hs
+      obtain ⟨a, b, d⟩ := step_inv c c1 hi o hs
+      obtain ⟨a2, b2, d2⟩ := ih c1 a h
+      exact ⟨a2, b2.trans b, d.trans d2⟩
+    · cases h
+
+theorem hang_exact_fit (n : Nat) (k m q : Bytes) (t : Int) : (RCache.new n).insert k m q n t = .err "hang" := by
+  simp [RCache.insert, RCache.new, makeRoomN]
+
 end Nuts.C18
